@@ -44,7 +44,9 @@ Proof.
     remember (firstn 4 r) as piece. inversion H; subst fs.
     specialize (IH _ _ Ef). rewrite skipn_length in IH. apply Nat.ltb_ge in El.
     cbn [fields_len fold_right field_len snd]. fold (fields_len fs'). lia. }
-  discriminate.
+  destruct (t mod 8 =? 3); [|discriminate].
+  destruct (skip_group n group_depth_limit (t / 8) r) as [r'|] eqn:Eg; [|discriminate].
+  pose proof (skip_group_consumes _ _ _ _ _ Eg). specialize (IH _ _ H). cbn [length] in *. lia.
 Qed.
 (* the embedded pieces of a message are disjoint pieces of it *)
 Theorem parse_fields_total bs fs : parse_fields bs = Some fs -> (fields_len fs <= length bs)%nat.
